@@ -366,6 +366,8 @@ def stress_corpus():
         ("deep_brackets_5000", b"cmd " + b"[" * 5000 + b"x" + b"]" * 5000 + b";\n"),
         ("deep_unclosed_20000", b"cmd " + b"(" * 20000),
         ("many_dots", b"cmd x" + b"..." * 500 + b";\n"),
+        ("nested_many1_12", b"cmd " + b"(" * 12 + b"x" + b")..." * 12 + b";\n"),
+        ("nested_many1_32", b"cmd " + b"(" * 32 + b"x" + b")..." * 32 + b";\n"),
         ("deep_def_chain", b"cmd <N0>;\n" + b"".join(b"<N%d> = a%d <N%d>;\n" % (i, i, i + 1) for i in range(400)) + b"<N400> = z;\n"),
         ("descr_escaped_ws", b"cmd foo \"multi \\\n   line\";\n"),
         ("error_at_eof_no_newline", b"cmd foo (bar"),
